@@ -397,6 +397,8 @@ func (f *frame) execSlice(x *ssa.Slice) {
 			// element j of the sub-slice is element lo+j of the original (stated with at-terms so that
 			// quantified facts about the original slice can be instantiated for sub-slice elements)
 			v.ctx.AssertRaw(fmt.Sprintf("(assert (forall ((j Int)) (! (= (at %s %s j) (at %s %s (+ %s j))) :pattern ((at %s %s j)))))", sub.B.S, sub.O.S, xv.B.S, xv.O.S, lo.S, sub.B.S, sub.O.S))
+			// and the other way round: a known element of the original finds its name in the sub-slice
+			v.ctx.AssertRaw(fmt.Sprintf("(assert (forall ((i Int)) (! (= (at %s %s i) (at %s %s (- i %s))) :pattern ((at %s %s i)))))", xv.B.S, xv.O.S, sub.B.S, sub.O.S, lo.S, xv.B.S, xv.O.S))
 		}
 		f.env[x] = sub
 	case Term:
@@ -521,8 +523,9 @@ func (f *frame) appendSlice(s SliceV, add SliceV, single Val, pos token.Pos) Sli
 			return pathRef(fmt.Sprintf("(at %s %s %s)", s.B.S, s.O.S, i), ar.path)
 		}
 		// old part
-		v.ctx.AssertRaw(fmt.Sprintf("(assert (forall ((i Int)) (! (=> (and (<= 0 i) (< i %s)) (= (select %s %s) (select %s %s))) :pattern ((select %s %s)))))",
-			s.L.S, a2.S, resElem("i"), a.S, srcElem("i"), a2.S, resElem("i")))
+		// (second pattern: a known element of the source finds its copy, for existential goals)
+		v.ctx.AssertRaw(fmt.Sprintf("(assert (forall ((i Int)) (! (=> (and (<= 0 i) (< i %s)) (= (select %s %s) (select %s %s))) :pattern ((select %s %s)) :pattern ((select %s %s)))))",
+			s.L.S, a2.S, resElem("i"), a.S, srcElem("i"), a2.S, resElem("i"), a.S, srcElem("i")))
 		// appended part
 		if single != nil {
 			var leaf Term
@@ -532,17 +535,23 @@ func (f *frame) appendSlice(s SliceV, add SliceV, single Val, pos token.Pos) Sli
 			addElem := func(j string) string {
 				return pathRef(fmt.Sprintf("(at %s %s %s)", add.B.S, add.O.S, j), ar.path)
 			}
+			// indexed by the position in the result, so that a read of any result element finds it
+			v.ctx.AssertRaw(fmt.Sprintf("(assert (forall ((i Int)) (! (=> (and (<= %s i) (< i %s)) (= (select %s %s) (select %s %s))) :pattern ((select %s %s)))))",
+				s.L.S, newLen.S, a2.S, resElem("i"), a.S, addElem(fmt.Sprintf("(- i %s)", s.L.S)), a2.S, resElem("i")))
+			// and by the position in what was appended, so that a known appended element finds its copy
 			v.ctx.AssertRaw(fmt.Sprintf("(assert (forall ((j Int)) (! (=> (and (<= 0 j) (< j %s)) (= (select %s %s) (select %s %s))) :pattern ((select %s %s)))))",
-				n.S, a2.S, resElem(fmt.Sprintf("(+ %s j)", s.L.S)), a.S, addElem("j"), a2.S, resElem(fmt.Sprintf("(+ %s j)", s.L.S))))
+				n.S, a2.S, resElem(fmt.Sprintf("(+ %s j)", s.L.S)), a.S, addElem("j"), a.S, addElem("j")))
 		}
-		// frame: cells that are not elements [0,newLen) of the result keep their value
+		// frame: cells that are not written keep their value. In place only the appended
+		// elements [len(s), newLen) are written; otherwise all of the fresh backing array.
+		writeLo := Ite(fits, T(SInt, "(+ %s %s)", s.O.S, s.L.S), IntLit(0))
 		depth := len(ar.path)
 		base := "r"
 		for i := 0; i < depth; i++ {
 			base = "(parent " + base + ")"
 		}
 		v.ctx.AssertRaw(fmt.Sprintf("(assert (forall ((r Ref)) (! (=> (not (and (= (elemBase %s) %s) (<= %s (elemIdx %s)) (< (elemIdx %s) (+ %s %s)) (= r %s))) (= (select %s r) (select %s r))) :pattern ((select %s r)))))",
-			base, res.B.S, res.O.S, base, base, res.O.S, newLen.S,
+			base, res.B.S, writeLo.S, base, base, res.O.S, newLen.S,
 			pathRef(fmt.Sprintf("(elem %s (elemIdx %s))", res.B.S, base), ar.path),
 			a2.S, a.S, a2.S))
 		st = st.with(ar.name, a2)
